@@ -1,6 +1,6 @@
 """C04 - assertions are honoured only inside their validity windows."""
 from harness.common import *                               # noqa: F401,F403
-from veriflib.boot import Clock
+from veriflib.boot import Clock, concrete
 from veriflib.runner import Cond
 
 DAY = 86400
@@ -20,10 +20,10 @@ def _accepts(ar):
 
 def flow(now: int, slack: int, ii: int, c_nb: int, c_nooa: int, s_nb: int, s_nooa: int, sess: int,
          has_c_nb: bool, has_c_nooa: bool, has_s_nb: bool, has_sess: bool, has_cond: bool,
-         spelling: int = 0):
+         spelling: int = 0, sc2: bool = False, tz: int = 0):
     """AuthnResponse.loads + verify + session_info on a handed-over Response object whose seven
     instants are symbolic integers.  Safety + liveness + session expiry."""
-    ck = Clock(now)
+    ck = Clock(now, tz)
     t_ii = ck.stamp(1, ii, spelling)
     cond = None
     if has_cond:
@@ -34,7 +34,11 @@ def flow(now: int, slack: int, ii: int, c_nb: int, c_nooa: int, s_nb: int, s_noo
            "not_on_or_after": ck.stamp(5, s_nooa, spelling),
            "in_response_to": REQ_ID, "recipient": ACS}
     authn = {"session_not_on_or_after": ck.stamp(6, sess, spelling) if has_sess else None}
-    a = mk_assertion(t_ii, cond, scd, authn)
+    confs = [scd]
+    if sc2:
+        # a second bearer confirmation with a window that is certainly open: it must not rescue an expired first one
+        confs.append({"not_on_or_after": ck.stamp(8, now + slack + 1000), "in_response_to": REQ_ID, "recipient": ACS})
+    a = mk_assertion(t_ii, cond, None, authn, confirmations=confs)
     resp = mk_response(t_ii, [a])
     ar = mk_authn_response(resp, timeslack=slack)
     acc, exc = _accepts(ar)
@@ -64,6 +68,30 @@ def flow(now: int, slack: int, ii: int, c_nb: int, c_nooa: int, s_nb: int, s_noo
     return ok, acc, "accepted=%s exc=%r" % (acc, exc)
 
 
+def later(now1: int, now2: int, nooa: int, slack: int, which: int):
+    """The same response presented twice in one process, the clock having advanced in between:
+    the second decision depends on the second instant only."""
+    which = concrete(which)
+    ck = Clock(now1)
+    t = ck.stamp(1, now1)
+    far = ck.stamp(9, now2 + slack + 1000)
+    near = ck.stamp(2, nooa)
+    cond = {"not_on_or_after": near if which == 0 else far, "audiences": [[SP_ID]]}
+    scd = {"not_on_or_after": near if which == 1 else far, "in_response_to": REQ_ID, "recipient": ACS}
+    authn = {"session_not_on_or_after": near if which == 2 else far}
+    def once():
+        a = mk_assertion(t, cond, scd, authn)
+        ar = mk_authn_response(mk_response(t, [a]), timeslack=slack)
+        return _accepts(ar)[0]
+    acc1 = once()
+    from veriflib import timemodel
+    timemodel.ENV["now"] = now2
+    acc2 = once()
+    ok = ((not acc1) | (now1 <= nooa + slack)) & ((not acc2) | (now2 <= nooa + slack)) \
+        & ((not (now1 + slack < nooa)) | acc1) & ((not (now2 + slack < nooa)) | acc2)
+    return ok, acc1 & (not acc2), "first=%s second=%s" % (acc1, acc2)
+
+
 def kernel(now: int, slack: int, nb: int, nooa: int, has_nb: bool, has_nooa: bool):
     """condition_ok alone (validate_on_or_after / validate_before / later_than)."""
     ck = Clock(now)
@@ -86,13 +114,13 @@ def kernel(now: int, slack: int, nb: int, nooa: int, has_nb: bool, has_nooa: boo
     return ok, acc, "accepted=%s" % acc
 
 
-_RANGE = ["0 <= slack <= %d" % YEARS10] + ["0 < %s <= %d" % (v, BIG) for v in
+_RANGE = ["-12 <= tz <= 14", "0 <= slack <= %d" % YEARS10] + ["0 < %s <= %d" % (v, BIG) for v in
                                            ("now", "ii", "c_nb", "c_nooa", "s_nb", "s_nooa", "sess")]
 _FLOW_PARAMS = [("now", "int"), ("slack", "int"), ("ii", "int"), ("c_nb", "int"), ("c_nooa", "int"),
                 ("s_nb", "int"), ("s_nooa", "int"), ("sess", "int"), ("has_c_nb", "bool"),
                 ("has_c_nooa", "bool"), ("has_s_nb", "bool"), ("has_sess", "bool"), ("has_cond", "bool"),
-                ("spelling", "int")]
-_BOOLS4 = [{"has_cond": hc, "has_s_nb": sn, "spelling": 0} for hc in (False, True) for sn in (False, True)]
+                ("spelling", "int"), ("sc2", "bool"), ("tz", "int")]
+_BOOLS4 = [{"has_cond": hc, "has_s_nb": sn, "spelling": 0, "sc2": hc != sn} for hc in (False, True) for sn in (False, True)]
 
 CONDITIONS = [
     Cond(name="kernel", fn="kernel",
@@ -111,9 +139,16 @@ CONDITIONS = [
                     "validate.valid_instance", "validate.validate_on_or_after", "validate.validate_before",
                     "time_util.later_than/str_to_time/shift_time/time_in_a_while/time_a_while_ago"],
          bounds="seven instants (now, IssueInstant, Conditions NB/NOOA, bearer NB/NOOA, SessionNOOA) in (0, 2^33], slack in [0, 10 years], "
-                "presence of each optional bound symbolic; one assertion, one bearer confirmation; quick: canonical spelling, "
+                "presence of each optional bound symbolic; one assertion, one bearer confirmation plus optionally a second one with an open window; process time zone -12..+14 h; quick: canonical spelling, "
                 "thorough: also fractional and Z-less spellings (resolved by the real fallback regex)"),
 ]
+
+CONDITIONS.append(
+    Cond(name="later", fn="later", params=[("now1", "int"), ("now2", "int"), ("nooa", "int"), ("slack", "int"), ("which", "int")],
+         pre=["0 < now1 <= now2", "now2 <= now1 + 86000", "0 < nooa <= %d" % BIG, "now2 <= %d" % BIG, "0 <= slack <= 1000", "0 <= which <= 2"],
+         partitions={"quick": [{"which": w} for w in range(3)]}, timeout={"quick": 600, "thorough": 1200}, path_timeout=120,
+         functions=["response.AuthnResponse.loads/verify (twice in one process)", "validate.validate_on_or_after"],
+         bounds="two presentations of one response at symbolic instants now1 <= now2 (within a day), the bound under test being the Conditions, bearer or session NotOnOrAfter"))
 
 ASSUMPTIONS = [
     "clock/time conversion replaced by the integer model (veriflib/timemodel.py): strptime/timegm/gmtime/strftime are a monotone bijection timestamps<->epoch seconds at 1 s resolution",
